@@ -217,6 +217,7 @@ class Evaluator:
         self.max_depth = max_depth
         self.effects = []  # (kind, term) side effects seen while evaluating (guards, expression statements)
         self._inline_cache = {}
+        self._ctx = (0, ())  # (inlining depth, stack of function nodes being inlined) of the code being evaluated
 
     # ------------------------------------------------------------------ expressions
     def ev(self, n, sc, mod):
@@ -380,7 +381,7 @@ class Evaluator:
             else:
                 kw[k.arg] = self.ev(k.value, sc, mod)
         dst = kw.pop("**", None)
-        t = T("call", n, mod, fn=fn, args=args, kw=kw, dstar=dst or [])
+        t = T("call", n, mod, fn=fn, args=args, kw=kw, dstar=dst or [], ctx=self._ctx)
         # functools.partial(f, a, b) -> partial value
         if fn.op == "ref" and fn.ref.qual == "functools.partial" and args:
             return T("partial", n, mod, fn=args[0], args=args[1:], kw=kw)
@@ -468,6 +469,8 @@ class Evaluator:
                     clo = T("call", d, mod, fn=self.ev(d, sc, mod), args=[clo], kw={}, dstar=[])
                 sc.vars[st.name] = clo
             elif isinstance(st, ast.Expr):
+                if isinstance(st.value, ast.Constant):
+                    continue  # docstring
                 v = self.ev(st.value, sc, mod)
                 self.effects.append(("expr", v))
                 sc.effects.append(v)
@@ -593,22 +596,45 @@ class Evaluator:
             return None, None, None
         return None, None, None
 
-    def inline(self, call, depth=0, stack=()):
+    def inline(self, call):
         """Result term of a call to an inlinable repo function, or None."""
         key = id(call)
         if key in self._inline_cache:
             return self._inline_cache[key][1]
+        depth, stack = call.get("ctx") or (0, ())
+        if call.fn.op == "if":
+            # a callee chosen by a branch (expand = lambda ... in each arm): distribute the call
+            parts = []
+            for br in (call.fn.then, call.fn.other):
+                c2 = T("call", call.node, call.mod, fn=br, args=call.args, kw=call.kw, dstar=call.get("dstar", []), ctx=call.get("ctx"))
+                r2 = self.inline(c2)
+                parts.append(r2 if r2 is not None else c2)
+            res = T("if", call.node, call.mod, cond=call.fn.cond, then=parts[0], other=parts[1])
+            self._inline_cache[key] = (call, res)
+            return res
         clo, pre, prekw = self.as_closure(call.fn)
         res = None
         if clo is not None:
-            res = self.apply(clo, pre + list(call.args), {**prekw, **call.kw}, call.dstar, depth + 1, stack)
+            res = self.apply(clo, pre + list(call.args), {**prekw, **call.kw}, call.get("dstar", []), depth + 1, stack)
         self._inline_cache[key] = (call, res)
         return res
 
-    def apply(self, clo, args, kw, dstar=(), depth=0, stack=()):
+    def apply(self, clo, args, kw, dstar=(), depth=None, stack=None):
         fnode = clo.fnode
+        if depth is None:
+            depth, stack = self._ctx[0] + 1, self._ctx[1]
         if depth > self.max_depth or fnode in stack:
             return unknown("inline-depth" if depth > self.max_depth else "recursion", fnode)
+        saved = self._ctx
+        self._ctx = (depth, tuple(stack) + (fnode,))
+        try:
+            return self._apply(clo, args, kw, dstar)
+        finally:
+            self._ctx = saved
+
+    def _apply(self, clo, args, kw, dstar=()):
+        fnode = clo.fnode
+        args = _flatten_pos(args)
         sc = Scope(clo.scope)
         mod = clo.mod
         a = fnode.args
@@ -692,6 +718,17 @@ class Evaluator:
         if r is None:
             r = const(None, fnode)
         return r
+
+
+def _flatten_pos(args):
+    """f(a, *(b, *rest)) == f(a, b, *rest): splice starred tuple/list literals into the positional list."""
+    out = []
+    for a in args:
+        if a.op == "star" and a.x.op in ("tuple", "list"):
+            out.extend(_flatten_pos(a.x.elts))
+        else:
+            out.append(a)
+    return out
 
 
 def _load(tgt):
